@@ -7,6 +7,8 @@ import fontsynth
 import fontmut
 import featgen
 import passgen
+import pathlib
+import sfnt
 
 GEN_MODULES = ["Lz4", "Err"]
 ASSUMPTIONS = ["theorems: sfnt container as FileFace reads it, Silf::readClassMap and the class look-ups, the layout half of Pass::readPass, readStates, the rule map, Pass::readRanges, cmap lookups after CheckCmapSubtable*, compressed tables and LZ4 (Props/C01.lean, C13, C14) are total / in-bounds for ALL bytes",
@@ -63,6 +65,21 @@ def pass_same(i, m):
         return m.startswith("ok ") and " R:E51 " not in m and " S:%s " % i.split()[1] in m and not m.endswith(" M:E52")
     if i.startswith("ok "):
         return m.startswith(i) and ("M:E" not in m) and " R:E" not in m and " S:E" not in m
+    return i == m
+
+
+def synth_silf_font(k):
+    """the k-th synthesised base font of the Silf stage: the same bytes whatever the seed, so that a replay can make it again"""
+    import random
+    return fontsynth.gen_font(random.Random("c01-silf-font-%d" % k), rtl=bool(k % 2))[0]
+
+
+def silf_same(i, m):
+    """`P<i> later`: the engine refused pass i in a part the model does not cover (code loader, rule records): the model must
+    have got at least as far"""
+    if i.endswith(" later"):
+        pi = int(i.split()[0][1:])
+        return m.startswith(("ok ", "nopasses ")) or (m.startswith("P") and int(m.split()[0][1:]) > pi)
     return i == m
 
 
@@ -155,6 +172,35 @@ def run(ctx):
         lib.correspond(ctx, res, "h_pass", "loader", cl, comp_holds, exe_args=[str(lib.REPO / "tests" / "fonts" / "Padauk.ttf")], per_chunk=300,
                        classify=lambda l, i: "classmap:" + ("fault" if i.startswith(("fault", "CRASH")) else i.split()[0]),
                        rule="Silf::readClassMap: class maps with 0..4 linear and 0..3 look-up classes, 16 and 32 bit offsets, intact or with a count, an offset, a header word, the first offset or the length changed; 12 probes of both look-ups per accepted map")
+        # Face::readGraphite / Silf::readGraphite: the Silf tables of small shipped fonts and of synthesised fonts, intact and mutated
+        # (every named number of the sub-table header, the pass offsets, the pseudo and class counts, the number of sub-tables and
+        # their offsets, the version, truncation at structure boundaries, the sub-table repeated), as the whole table of the font
+        # they came from (`silftable`) and as a bare sub-table on an exact-size buffer (`silf`)
+        spool = passgen.silf_pool(r, lib.REPO / "tests" / "fonts", 0, big=not q)
+        for k in range(4 if q else 24):
+            fp = scratch / ("silf-synth-%d.ttf" % k)
+            data = synth_silf_font(k)
+            fp.write_bytes(data)
+            st = sfnt.read_tables(data)["Silf"]
+            an = passgen.silf_anatomy(st)
+            if an:
+                spool.append((str(fp), st, an))
+        for fp, st, an in spool:
+            ng, na, hb = lib.run_lines([hp, fp], ["faceinfo"])[0].split()
+            n = (40 if q else 400) if len(st) > 40000 else (250 if q else 6000)
+            hl2 = []
+            for k in range(n):
+                t = st if k == 0 else passgen.mutate_silf(r, st, an)
+                if k % 2 == 0:
+                    hl2.append("silftable %s %s %s %s" % (ng, na, hb, t.hex() or "-"))
+                else:
+                    off, end = an["subs"][0]
+                    sub = t[off:end] if r.random() < 0.8 else t[off: off + r.randrange(0, 80)]
+                    v = int.from_bytes(t[0:4], "big") if len(t) >= 4 else 0x00020000
+                    hl2.append("silf %d %s %s %s %s" % (v, ng, na, hb, sub.hex() or "-"))
+            lib.correspond(ctx, res, "h_pass", "loader", hl2, comp_holds, exe_args=[fp], per_chunk=100, same=silf_same,
+                           classify=lambda l, i: l.split()[0] + ":" + ("fault" if i.startswith(("fault", "CRASH")) else " ".join(x for x in i.split()[:2] if not x[:1].isdigit())),
+                           rule="Face::readGraphite / Silf::readGraphite: the Silf table of %s (%d bytes), intact and mutated; the verdict (error code, pass number, or the numbers of the accepted sub-tables) must be the model's; the passes go on into the code loader under ASan" % (pathlib.Path(fp).name, len(st)))
         exe = lib.build_harness("h_seg")
         fonts, hl, meta = [], [], []
 
@@ -247,10 +293,20 @@ def replay(ctx, obj):
         scratch = lib.CACHE / ("replay-%d" % os.getpid())
         scratch.mkdir(parents=True, exist_ok=True)
         try:
-            for it in ([obj] if "line" in obj else obj.get("first", [])):
+            import re
+            items = [obj] if "line" in obj else obj.get("first", [])
+            for it in items:
                 if it.get("harness") != "h_pass":        # (h_pass keeps the base font it was run with)
                     it["exe_args"] = [str(scratch)]
-            return lib.replay_lines(ctx, obj, {"loader": comp_holds}, same=lambda i, m: pass_same(i, m) if any(it.get("harness") == "h_pass" for it in ([obj] if "line" in obj else obj.get("first", []))) else i == m)
+                else:
+                    mm = re.search(r"silf-synth-(\d+)\.ttf$", (it.get("exe_args") or [""])[0])
+                    if mm:                                # … unless that was a synthesised one: make it again
+                        fp = scratch / ("silf-synth-%s.ttf" % mm.group(1))
+                        fp.write_bytes(synth_silf_font(int(mm.group(1))))
+                        it["exe_args"] = [str(fp)]
+            silf = any(it.get("line", "").startswith("silf") for it in items)
+            hpass = any(it.get("harness") == "h_pass" for it in items)
+            return lib.replay_lines(ctx, obj, {"loader": comp_holds}, same=silf_same if silf else (pass_same if hpass else None))
         finally:
             shutil.rmtree(scratch, ignore_errors=True)
     print(str(obj)[:2000])
